@@ -191,6 +191,27 @@ def faults(isa, rng):
         first['operand_values']['rel_bad'] = {'type': 'relative_address', 'use_curly_braces': True,
                                               'argument': {'size': 8, 'byte_align': True, 'min': 20, 'max': -20}}
     mut('inverted-range:relative_address', rel_inverted)
+
+    def rel_inverted0(d):
+        lo, hi = rng.choice([(0, -8), (4, 0), (1, 0), (0, -1), (0, -128), (127, 0)])
+        for holder, oid, oc in all_operands(d):
+            if oc['type'] == 'relative_address':
+                oc['argument']['min'], oc['argument']['max'] = lo, hi
+                return
+        first = next(iter(d['operand_sets'].values()))
+        first['operand_values']['rel_bad'] = {'type': 'relative_address', 'use_curly_braces': True,
+                                              'argument': {'size': 8, 'byte_align': True, 'min': lo, 'max': hi}}
+    mut('inverted-range:relative_address/zero-bound', rel_inverted0)
+
+    def nb_inverted0(d):
+        lo, hi = rng.choice([(1, 0), (15, 0), (7, 0)])
+        for holder, oid, oc in all_operands(d):
+            if oc['type'] == 'numeric_bytecode':
+                oc['bytecode']['min'], oc['bytecode']['max'] = lo, hi
+                return
+        first = next(iter(d['operand_sets'].values()))
+        first['operand_values']['nb_bad'] = {'type': 'numeric_bytecode', 'bytecode': {'size': 4, 'min': lo, 'max': hi}}
+    mut('inverted-range:numeric_bytecode/zero-bound', nb_inverted0)
     bits = isa['general']['address_size']
 
     def zone_inverted(d):
@@ -274,7 +295,8 @@ class C19(core.Check):
         'base:accepted', 'remove:general', 'remove:instructions', 'remove:operand_sets', 'keyword:mnemonic',
         'keyword:mnemonic-function-name', 'keyword:register', 'keyword:macro', 'macro-named-like-instruction',
         'undeclared-operand-set', 'count!=operand-set-list', 'count!=specific-operand-list', 'undeclared-register-in-operand',
-        'inverted-range:numeric_bytecode', 'inverted-range:relative_address', 'zone:inverted', 'zone:beyond-address-width',
+        'inverted-range:numeric_bytecode', 'inverted-range:relative_address', 'inverted-range:relative_address/zero-bound',
+        'inverted-range:numeric_bytecode/zero-bound', 'zone:inverted', 'zone:beyond-address-width',
         'origin-below-redefined-GLOBAL', 'instruction-without-bytecode', 'variant-without-bytecode', 'unknown-operand-type',
         'enumeration-key-is-register', 'isa-version-not-semver', 'gate:min_version', 'gate:require', 'fmt:yaml', 'fmt:json']}
 
